@@ -379,6 +379,40 @@ static int t_mpz_div (const char *f, int budget)
     }
   printf ("PASS %d\n", budget); return 0;
 }
+/* the _ui division forms (q, r, qr, none) against mpz_tdiv_qr with the divisor as an mpz + the manual's rounding rule; return value = |r| */
+static int t_mpz_div_ui (const char *f, int budget)
+{
+  for (int it = 0; it < budget; it++)
+    {
+      mpz_t q, r, n, d, tq, tr, wq, wr; mk_mpz (n, 4); mpz_init (d); mpz_init (q); mpz_init (r); mpz_init (tq); mpz_init (tr); mpz_init (wq); mpz_init (wr);
+      unsigned long dv = pat (); if (dv == 0) dv = 1 + it % 7; if (it % 4 == 0) dv = 1 + rnd64 () % 9;
+      mpz_set_ui (d, dv);
+      if (it % 5 == 0) mpz_mul (n, d, n);
+      if (it % 7 == 0 && mpz_size (n) == 1) { mpz_set_ui (n, dv - (it % 2)); if (it % 3) mpz_neg (n, n); }
+      mpz_tdiv_qr (tq, tr, n, d);
+      char kind = f[4];                                        /* t f c */
+      int adj = mpz_sgn (tr) != 0 && (kind == 'f' ? mpz_sgn (n) < 0 : kind == 'c' ? mpz_sgn (n) > 0 : 0);
+      mpz_set (wq, tq); mpz_set (wr, tr);
+      if (adj) { if (kind == 'f') { mpz_sub_ui (wq, wq, 1); mpz_add (wr, wr, d); } else { mpz_add_ui (wq, wq, 1); mpz_sub (wr, wr, d); } }
+      const char *tail = f + 9;                                /* "ui" | "q_ui" | "r_ui" | "qr_ui" */
+      int isqr = !strncmp (tail, "qr", 2), useq = isqr || tail[0] == 'q', user = isqr || tail[0] == 'r';
+      int al = rnd64 () % 3; mpz_t nn; mpz_init_set (nn, n); mpz_ptr pn = n;
+      if (al == 1 && useq) pn = q; else if (al == 2 && user) pn = r;
+      if (pn != n) mpz_set (pn, nn);
+      unsigned long ret;
+      if (isqr) ret = kind == 't' ? mpz_tdiv_qr_ui (q, r, pn, dv) : kind == 'f' ? mpz_fdiv_qr_ui (q, r, pn, dv) : mpz_cdiv_qr_ui (q, r, pn, dv);
+      else if (useq) ret = kind == 't' ? mpz_tdiv_q_ui (q, pn, dv) : kind == 'f' ? mpz_fdiv_q_ui (q, pn, dv) : mpz_cdiv_q_ui (q, pn, dv);
+      else if (user) ret = kind == 't' ? mpz_tdiv_r_ui (r, pn, dv) : kind == 'f' ? mpz_fdiv_r_ui (r, pn, dv) : mpz_cdiv_r_ui (r, pn, dv);
+      else ret = kind == 't' ? mpz_tdiv_ui (pn, dv) : kind == 'f' ? mpz_fdiv_ui (pn, dv) : mpz_cdiv_ui (pn, dv);
+      int ok = mpz_cmpabs_ui (wr, ret) == 0;
+      if (useq) ok = ok && mpz_cmp (q, wq) == 0;
+      if (user) ok = ok && mpz_cmp (r, wr) == 0;
+      if (pn == n) ok = ok && mpz_cmp (n, nn) == 0;
+      if (!ok) { failed (f); printf (" alias=%d d=%#lx ret=%#lx", al, dv, ret); show_z ("n", nn); show_z ("q", q); show_z ("r", r); show_z ("want_q", wq); show_z ("want_r", wr); printf ("\n"); return 1; }
+      mpz_clear (q); mpz_clear (r); mpz_clear (n); mpz_clear (d); mpz_clear (tq); mpz_clear (tr); mpz_clear (wq); mpz_clear (wr); mpz_clear (nn);
+    }
+  printf ("PASS %d\n", budget); return 0;
+}
 /* raw I/O: round trip through a memory stream, and EVERY truncation point of the image */
 static int t_raw (const char *f, int budget)
 {
@@ -657,6 +691,7 @@ int main (int argc, char **argv)
   if (!strcmp (f, "mpz_neg") || !strcmp (f, "mpz_abs") || !strcmp (f, "mpz_set") || !strcmp (f, "mpz_swap")) return t_mpz_copy (f, budget);
   if (!strcmp (f, "mpz_cmp") || !strcmp (f, "mpz_cmpabs")) return t_mpz_cmp (f, budget);
   if (!strcmp (f, "mpz_tstbit") || !strcmp (f, "mpz_scan0") || !strcmp (f, "mpz_scan1")) return t_mpz_bits (f, budget);
+  if ((!strncmp (f, "mpz_fdiv", 8) || !strncmp (f, "mpz_cdiv", 8) || !strncmp (f, "mpz_tdiv", 8)) && strlen (f) >= 2 && !strcmp (f + strlen (f) - 2, "ui")) return t_mpz_div_ui (f, budget);
   if (!strncmp (f, "mpz_fdiv", 8) || !strncmp (f, "mpz_cdiv", 8) || !strcmp (f, "mpz_mod")) return t_mpz_div (f, budget);
   if (!strncmp (f, "mpz_cmp", 7) || !strncmp (f, "mpz_fits", 8) || !strncmp (f, "mpz_get", 7) || !strncmp (f, "mpz_set_", 8)) return t_mpz_c11 (f, budget);
   if (!strcmp (f, "raw")) { int r1 = t_raw (f, budget); return r1 ? r1 : t_raw_leak (budget); }
